@@ -473,6 +473,38 @@ func runC19(c *ctx) {
 		{kind: "addattr", attr: jsonapi.Attr{Name: "one", Type: 4}},
 		{kind: "settype", typ: base},
 	}, "corpus kind change")
+	// a history nobody watches: the type is replaced and restored without a read in between;
+	// what the replaced type did not have is gone (oracle only: the model follows a harness that
+	// reads every element after every step)
+	{
+		var key, detail string
+		p, pv := guard(func() {
+			tb, tn := base.softType(), typeSpec{name: "t", fields: []fieldSpec{{name: "a", code: 1}}}.softType()
+			col := &jsonapi.SoftCollection{}
+			col.SetType(&tb)
+			col.Add(buildRes(base, false, []setOp{{"id", "1"}, {"a", "x"}, {"n", ptrTo(int8(7))}, {"b", []byte{1}}, {"one", "o1"}, {"many", []string{"m1"}}}))
+			col.SetType(&tn)
+			tb2 := base.softType()
+			col.SetType(&tb2)
+			fresh := base.newSoft()
+			for _, f := range base.fields {
+				if f.name == "a" {
+					continue
+				}
+				if got := col.At(0).Get(f.name); !sameValue(got, fresh.Get(f.name)) {
+					key, detail = "absent-field-not-zero", fmt.Sprintf("SetType to a type without %s and back, nothing read in between: %s reads %s", f.name, f.name, descValue(got))
+				}
+			}
+			if col.At(0).Get("a") != "x" {
+				key, detail = "add-lost-value", "a field both types have lost its value over SetType, SetType"
+			}
+		})
+		if p {
+			key, detail = "collection-history-panics", fmt.Sprint(pv)
+		}
+		k := c.add("quiet-history", "SetType, SetType back without a read", "quiet-history", false, oL(nil), oL(nil), key, detail)
+		k.Replay = "quiet-history"
+	}
 	// corpus: a wider resource whose extra relationships name no target type
 	for _, start := range []typeSpec{{name: "t", fields: []fieldSpec{{name: "a", code: 1}}}, base} {
 		c19History(c, start, []c19Op{
